@@ -391,6 +391,16 @@ func (s *configurationStore) Watch(ctx context.Context, ch chan<- configapi.Conf
 			s.mu.Unlock()
 		}()
 
+		// Whichever way the watch ends, the channel is closed exactly once and the events the store may still
+		// hand to this watcher are drained: the store never blocks on a watcher that has gone away
+		defer func() {
+			close(ch)
+			go func() {
+				for range eventCh {
+				}
+			}()
+		}()
+
 		if options.replay {
 			if options.configurationID != "" {
 				entry, err := s.configurations.Get(ctx, options.configurationID)
@@ -403,23 +413,25 @@ func (s *configurationStore) Watch(ctx context.Context, ch chan<- configapi.Conf
 					configuration := entry.Value
 					configuration.Version = uint64(entry.Version)
 					if ctx.Err() != nil {
-						close(ch)
 						return
 					}
 					if err := s.populate(ctx, configuration); err != nil {
 						log.Error(err)
 						return
 					}
-					ch <- configapi.ConfigurationEvent{
+					select {
+					case ch <- configapi.ConfigurationEvent{
 						Type:          configapi.ConfigurationEvent_REPLAYED,
 						Configuration: *configuration,
+					}:
+					case <-ctx.Done():
+						return
 					}
 				}
 			} else {
 				entries, err := s.configurations.List(ctx)
 				if err != nil {
 					log.Error(err)
-					close(ch)
 					return
 				}
 				for {
@@ -432,7 +444,6 @@ func (s *configurationStore) Watch(ctx context.Context, ch chan<- configapi.Conf
 						continue
 					}
 					if ctx.Err() != nil {
-						close(ch)
 						return
 					}
 					configuration := entry.Value
@@ -441,9 +452,13 @@ func (s *configurationStore) Watch(ctx context.Context, ch chan<- configapi.Conf
 						log.Error(err)
 						return
 					}
-					ch <- configapi.ConfigurationEvent{
+					select {
+					case ch <- configapi.ConfigurationEvent{
 						Type:          configapi.ConfigurationEvent_REPLAYED,
 						Configuration: *configuration,
+					}:
+					case <-ctx.Done():
+						return
 					}
 				}
 			}
@@ -452,13 +467,12 @@ func (s *configurationStore) Watch(ctx context.Context, ch chan<- configapi.Conf
 		for {
 			select {
 			case event := <-eventCh:
-				ch <- event
+				select {
+				case ch <- event:
+				case <-ctx.Done():
+					return
+				}
 			case <-ctx.Done():
-				close(ch)
-				go func() {
-					for range eventCh {
-					}
-				}()
 				return
 			}
 		}
